@@ -113,6 +113,59 @@ CLAIMS = {
                 "(asyncio start_server contract).",
         "design": "DESIGN.md section 4, C14",
     },
+    "C05": {
+        "text": "Bounded symbolic model checking of the real status / run --dry-run / run command bodies over the VFS and the simulators: from one symbolic project state (existence of "
+                "outputs, earlier job of each target in one of 6 abstract states, spec-hash situation) the table shown by status equals the plan specification, its to-be-run rows equal "
+                "the dry-run's 'Would submit' records and the jobs the run creates; the previews issue no mutating scheduler command, change no file, and leave both state files "
+                "JSON-equal; every filter/format combination shows the restriction of that table.",
+        "note": "Bound: 3 targets (chain, fork), Slurm and pool (quick) / all four backends (thorough); 8 (48) filter combinations. Modification times concrete here (symbolic in C01/C06/C16).",
+        "design": "DESIGN.md section 4, C05",
+    },
+    "C06": {
+        "text": "Bounded symbolic model checking of run -> drain -> status -> run -> perturb -> run with the real command bodies: initial existence and modification times, earlier job "
+                "states and - crucially - the finish time of every submitted job are symbolic integers constrained only by the scheduler contract derived from the prerequisites the "
+                "reference reader parsed (f_j >= f_p); all legal schedules are therefore the models of linear constraints decided by z3, not an enumeration. Afterwards every target with "
+                "outputs must be completed, the re-run a no-op, and after touching a source / deleting an output exactly the downstream closure is submitted.",
+        "note": "Bound: chain of 2 with earlier jobs, fork/join/sink on 3 from a fresh project (quick); arbitrary initial files, all backends, hashing, diamond (thorough). One perturbation round.",
+        "design": "DESIGN.md section 4, C06",
+    },
+    "C09": {
+        "text": "Bounded symbolic fault/crash-point analysis of the real run body: the index of the failing scheduler command (3 failure kinds) and the index of the operation at which the "
+                "process is killed (every file-system primitive incl. each write() of json.dump and os.replace, every scheduler command before/after it took effect) are symbolic "
+                "integers; afterwards state files must load, a fault-free run must start, must not resubmit accepted pending jobs, must name the accepted ids as prerequisites, and spec "
+                "hashes exist only for accepted targets.",
+        "note": "Bound: chain of 2 / fork of 3, <= 7 commands, <= 45 operations. KNOWN FINDING: a hard kill between the first acceptance and close() loses the accepted ids (excluded region, "
+                "witness kept; the other clauses are still checked at those crash points). VFS is sequentially consistent.",
+        "design": "DESIGN.md section 4, C09",
+    },
+    "C15": {
+        "text": "Bounded symbolic model checking of the real clean body: existence of every output, --all, --force, the prompt answer, spec hashing and 'output is a symlink to an unrelated "
+                "file' are symbolic booleans, pattern set and protect set selectors; the world afterwards must equal the world before minus exactly the existing unprotected outputs of "
+                "the selected (non-endpoint unless --all) targets and minus their hash records; a declined prompt changes nothing.",
+        "note": "Bound: 3 targets (chain, fork; + two endpoints in thorough), 6 pattern sets, 6 protect spellings.",
+        "design": "DESIGN.md section 4, C15",
+    },
+    "C16": {
+        "text": "Bounded symbolic model checking of the real touch body followed by the real status body: existence and modification time of every file and the clock increments before "
+                "successive touches are symbolic integers (ties allowed), selection and hash-record situation selectors; every cone target with outputs must then be completed, records "
+                "= current specs, contents unchanged, new files empty, nothing outside the cone changed.",
+        "note": "Bound: 3 targets (chain x 4 selections, fork, join) quick; + diamond, two endpoints thorough. No job known to the backend, no future-dated source (statement).",
+        "design": "DESIGN.md section 4, C16",
+    },
+    "C17": {
+        "text": "Bounded symbolic model checking of the real cancel body on all four backends: per-target job state, selection, --force/prompt answer and the position of a failing cancel "
+                "command are symbolic; the cancel commands the simulator received must be exactly the tracked ids of the selected targets (each once, also after a failure), untracked "
+                "targets reported, declined prompt = no command; afterwards status shows none of them live and run resubmits them.",
+        "note": "Bound: chain of 3, 5 selections, 3 (4) job states, failing command position 0..3. scancel signals failure only on stderr (as real Slurm).",
+        "design": "DESIGN.md section 4, C17",
+    },
+    "C18": {
+        "text": "Bounded symbolic model checking against the reference record model: (a) one inductive step from an arbitrary record map (absent/current/outdated per target, stray record, "
+                "no file) for run (incl. the k-th sbatch rejected), dry-run, status, touch, clean with hashing on and off; (b) histories of 2 (3) steps over run+drain / dry-run / status / "
+                "touch / clean / spec edits / enable-disable / rejected run: after every step the file equals the model and status follows the records.",
+        "note": "Bound: chain of 2 on Slurm; histories <= 3 steps from a fresh project.",
+        "design": "DESIGN.md section 4, C18",
+    },
 }
 
 PENDING = {}
